@@ -1,8 +1,9 @@
 import Driver.Core
 import Driver.Formats
+import Driver.Filter
 open Lcdb Drv
 
-def handlers : List (List String → String) := [handleCore, handleFormats]
+def handlers : List (List String → String) := [handleCore, handleFormats, handleFilter]
 
 def handle (line : String) : String :=
   let f := line.trimAscii.toString.splitOn " "
